@@ -4,6 +4,7 @@
 -/
 import ZvtVerif.Derive
 import ZvtVerif.Generated
+import ZvtVerif.Sequence
 namespace Zvt.Driver
 open Zvt
 
@@ -232,6 +233,54 @@ def opEnc (s : StructDef) (toks : List String) : String :=
   | some (v, []) => resBytes (encodeCmd s v)
   | _ => "bad-op"
 
+def errKindBare (e : Err) : String := errName e
+
+def opRead (e : EnumDef) (chunks : List Bytes) : String :=
+  let s := chunks.flatten
+  let outs := readPackets e (s.length + 2) s
+  " ; ".intercalate (outs.map fun o => match o with
+    | .ok i v n => (match e.variants[i]? with
+        | some (name, sd) => s!"ok {i} {name} {showVal (.struct sd.fields) v} n={n}"
+        | none => "ok ?")
+    | .zvtErr er n => (if er.isPanic then s!"panic n={n}" else s!"err {errKindBare er} n={n}")
+    | .eof n => s!"err io:eof n={n}")
+
+def mergeReads : List Ev → List Ev
+  | .r a :: .r b :: rest => mergeReads (.r (a + b) :: rest)
+  | x :: rest => x :: mergeReads rest
+  | [] => []
+termination_by l => l.length
+
+def showEv (e : EnumDef) : Ev → String
+  | .w b => "w:" ++ hexOf b
+  | .r n => s!"r:{n}"
+  | .y i v => (match e.variants[i]? with
+      | some (name, sd) => s!"y:{i}:{name}:{showVal (.struct sd.fields) v}"
+      | none => "y:?")
+  | .e k => "e:" ++ k
+  | .fin => "end"
+  | .hang => "hang"
+
+def opSeq (name : String) (input : Bytes) (items : List Bytes) : String :=
+  match Generated.sequences.find? (·.1 = name) with
+  | none => "bad-op"
+  | some (_, inName, outName, kind, finals) =>
+    match findStruct inName, findEnum outName with
+    | some sIn, some eOut =>
+      match decodeCmd sIn input with
+      | .error _ => "bad-op"
+      | .ok (v, _) =>
+        match encodeCmd sIn v with
+        | .error _ => "panic"
+        | .ok cmd =>
+          if kind = "once" ∨ kind = "loop" then
+            " / ".intercalate ((mergeReads (runSeq eOut (kind = "once") finals cmd items)).map (showEv eOut))
+          else "bad-op"
+    | _, _ => "bad-op"
+
+def parseItems (s : String) (sep : String) : Option (List Bytes) :=
+  (s.splitOn sep).mapM parseHex
+
 def handle (line : String) : String :=
   match line.trimAscii.toString.splitOn " " with
   | ["len.ser", style, n] =>
@@ -257,6 +306,14 @@ def handle (line : String) : String :=
   | ["parse", en, hex] =>
     match findEnum en, parseHex hex with
     | some e, some b => opParse e b
+    | _, _ => "bad-op"
+  | ["read", en, chunks] =>
+    match findEnum en, parseItems chunks "|" with
+    | some e, some cs => opRead e cs
+    | _, _ => "bad-op"
+  | ["seq", name, input, script] =>
+    match parseHex input, (if script = "." then some [] else parseItems script ",") with
+    | some i, some items => opSeq name i items
     | _, _ => "bad-op"
   | "enc" :: ty :: rest =>
     match findStruct ty with
